@@ -36,6 +36,16 @@
   A wake (state WAITING → READY, push) is accepted only for a published fiber: a primitive
   that published a fiber in any other way makes the model reject the trace.
 
+  MAINTENANCE IS ONE-SHOT.  `old k` stays stale long after thread k's maintenance is over (the
+  fiber may have run and parked again elsewhere), so "g = old k" alone must not licence a
+  maintenance action.  The ghost stage `mst k` (see `MSt`) follows the fixed order of
+  fiber_manager_do_maintenance after each switch: read old.state once; then, depending on
+  the value read, flip SAVING → WAITING / push to_schedule / destroy done_fiber, each once.
+  Without it the model would accept e.g. a second `SAVING → WAITING` flip by a thread whose
+  `old` has meanwhile re-parked on another thread, which no execution of the code can produce.
+  `fiber_mark_completed`'s DONE write is accepted only from RUNNING (the fiber is executing).
+  `Ev.wf` rejects kernel-thread ids ≥ 16 and queue ids ≥ 32 (what `heldBy` / `inSomeBag` scan).
+
   The theorems (Props/C01.lean, Props/C02.lean) show for every accepted event sequence, for
   any number of kernel threads and fibers: a context switch always targets a fiber whose
   context is saved or fresh and that runs nowhere else; a fiber is in at most one place
